@@ -713,7 +713,7 @@ class Kernel(object):
         if p.state != 'zombie':
             if options & _os.WNOHANG:
                 return (0, 0)
-            self.w.block(lambda: p.state == 'zombie', None, 'waitpid(%d,0)' % pid)
+            self.w.wait_plain(lambda: p.state == 'zombie', None, 'waitpid(%d,0)' % pid)
         p.state = 'reaped'
         return (pid, p.status)
 
